@@ -385,7 +385,7 @@ Section WithConfig.
           (* lines 904-921 *)
           match find (fun p => str_eqb (hd [] p) n && str_eqb (last p []) n && nonempty_list p) (cycles s1) with
           | Some p =>
-            if Nat.eqb (length p) 2 || (Nat.eqb (length p) 3 && containsb s_Item (nth 1 p [])) then
+            if Nat.eqb (length p) 2 || (Nat.eqb (length p) 3 && containsb s_mark_Item (nth 1 p [])) then
               (mark_circular x, add_ev EvMarked (w_parsed (update_id (i_id x) mark_circular (parsed s1)) s1))
             else (x, s1)
           | None => (x, s1)
